@@ -39,7 +39,7 @@ func TestMain(m *testing.M) {
 	time.Local = time.UTC // day directories are UTC days; keep the year/month lookup of the engine out of this check (C08/C12)
 	_, _ = logging.Init(logging.LevelError, logging.EncodingLogfmt, logging.WithOutput(io.Discard), logging.WithErrorOutput(io.Discard))
 	evid.Rule("CSV files built from a rapid-drawn schema (header row or --schema, with the header optionally left in the file; permuted columns; with/without iface, sip, dip, dport, proto and the four counter columns; unknown and unnamed columns) " +
-		"and 0–40 data rows over 1–5 timestamps (mostly multiples of 300 s from 1700006400, some unaligned, spread over up to five days) drawn from small alphabets (3 interfaces, 2+2 IPv4 and 2+2 IPv6 addresses, 3 ports, protocol numbers and names), " +
+		"and 0–40 data rows over 1–5 timestamps (mostly multiples of 300 s from 1700006400, some unaligned, spread over up to five days) drawn from small alphabets (3 interfaces, 2+2 IPv4 and 2+2 IPv6 addresses, 4 ports, protocol numbers and names in several spellings), " +
 		"with constructed duplicates of an earlier row's key in the same timestamp, malformed rows (bad address/port/protocol/counter/timestamp, timestamp ≤ 0, mixed families, empty or path-like interface, too few fields), over-long rows, quoted fields, LF/CRLF, " +
 		"one optional time regression, --max-rows, and schemas that lack `time` or any interface; each file is imported into an empty destination which is then read back block by block and through the query engine; " +
 		"two generator modes: 'dup' (duplicates allowed) and 'nodup' (a colliding row gets a unique port; excluded draws are counted); " +
